@@ -209,10 +209,13 @@ class Gen:
 
             if k == "compiled":
                 # natively compiled: the fault may sit in a try/finally (or handler) that keeps executing after the raise
+                # (native code cannot use script classes: no context managers of the script, no class with a script __init__)
+                saved_gated = set(self.gated)
+                self.gated |= {"with_body", "with_exit_raises"}
                 inner = self.fault("        ")
                 while self.exc_kind == "user:SubErr":
-                    # (a class with a script __init__ cannot be instantiated from native code: documented limitation)
                     inner = self.fault("        ")
+                self.gated = saved_gated
                 wrap = r.choice(["plain", "finally", "finally", "reraise"])
                 if wrap == "plain":
                     lines_ = [l[4:] for l in inner]
